@@ -76,14 +76,13 @@ func VerifyNameErrorNSEC(msg *dns.Msg, nsecSet []dns.RR) error {
 		return ErrNSECMissingCoverage
 	}
 
-	// RFC 4592 §4.2: wildcards are not defined at the root zone, so if
-	// the closest encloser is the root, there is no wildcard proof to
-	// require.
-	if ce == "." {
-		return nil
-	}
-
+	// The root is no exception: "*." is an ordinary wildcard owner (RFC
+	// 4592 §2.1.1), and the root's own name errors carry the apex NSEC
+	// that covers it.
 	wildcard := "*." + ce
+	if ce == "." {
+		wildcard = "*."
+	}
 	for _, rr := range nsecSet {
 		nsec := rr.(*dns.NSEC)
 		if nsecCovers(nsec.Header().Name, nsec.NextDomain, wildcard) {
